@@ -583,6 +583,21 @@ class Br(ContentElement):
       dest.add_animation_step(anim_step)
 
 
+def _check_new_children(element: ContentElement, children: typing.List[ContentElement]):
+  '''Checks that all of `children` can be added to `element`, so that adding them either succeeds
+  or leaves `element` unchanged'''
+
+  if len(set(map(id, children))) != len(children):
+    raise RuntimeError("Element already has a parent")
+
+  for child in children:
+
+    if child.parent() is not None:
+      raise RuntimeError("Element already has a parent")
+
+    if child.get_doc() != element.get_doc():
+      raise RuntimeError("Element belongs to a different document")
+
 class Ruby(ContentElement):
   '''Ruby element, as specified in TTML2'''
 
@@ -605,10 +620,14 @@ class Ruby(ContentElement):
     if self.has_children():
       raise RuntimeError("Remove all ruby children before adding more.")
 
+    children = list(children)
+
     ts = [type(x) for x in children]
 
     if ts not in [[Rb, Rt], [Rb, Rp, Rt, Rp], [Rbc, Rtc], [Rbc, Rtc, Rtc]]:
       raise ValueError("Children of ruby do not conform to requirements")
+
+    _check_new_children(self, children)
 
     for child in children:
       super().push_child(child)
@@ -752,13 +771,19 @@ class Rtc(ContentElement):
     raise RuntimeError("Rtc children must be removed using `remove_children`")
 
   def push_children(self, children: typing.Iterable[ContentElement]):
-    cs = list(children)
+    children = list(children)
+
+    # the existing children, if any, and the new children must together conform to the requirements
+
+    cs = list(self) + children
 
     if len(cs) > 2 and isinstance(cs[0], Rp) and isinstance(cs[-1], Rp):
       cs = cs[1:-1]
 
     if not all(isinstance(x, Rt) for x in cs):
       raise ValueError("Children of rtc do not conform to requirements")
+
+    _check_new_children(self, children)
 
     for child in children:
       super().push_child(child)
